@@ -76,7 +76,8 @@ class C13(ProgramProperty):
         pm2 = list(pm)
         rng.shuffle(pm2)
         steps += [{"op": "upgrade", "data": pm}, {"op": "upgrade", "data": pm2}]
-        steps += [{"op": "load_file_pm", "dst": 6, "data": bij, "as": "str"},
+        steps += [{"op": "load_file_pm", "dst": 6, "data": bij, "as": rng.choice(["str", "relstr"]),
+                   "name": rng.choice(["pm.json", "http_prefixes.json", "ftpdata.json", "https.json", "h.json"])},
                   {"op": "load_file_pm", "dst": 7, "data": bij, "as": "path"},
                   {"op": "load_file_jsonld", "dst": 8, "data": ctx, "as": rng.choice(["str", "path"])},
                   {"op": "load_file_epm", "dst": 9, "records": recs, "as": rng.choice(["str", "path"])}]
@@ -143,7 +144,7 @@ class C13(ProgramProperty):
                     st["_namespaces"] = [[cps(str(p)), cps(str(n))] for p, n in g.namespaces()]
                     results[i] = Converter.from_rdflib(g)
                 else:
-                    path = os.path.join(tmp, f"f{i}.json")
+                    path = os.path.join(tmp, st.get("name") or f"f{i}.json")
                     if st["op"] == "load_file_pm":
                         obj = {uncps(k): uncps(v) for k, v in st["data"]}
                         loader = curies.load_prefix_map
@@ -157,7 +158,15 @@ class C13(ProgramProperty):
                         loader = curies.load_extended_prefix_map
                     with open(path, "w", encoding="utf-8") as f:
                         json.dump(obj, f, ensure_ascii=False)
-                    results[i] = loader(path if st["as"] == "str" else Path(path))
+                    if st["as"] == "relstr":
+                        cwd = os.getcwd()
+                        os.chdir(tmp)
+                        try:
+                            results[i] = loader(os.path.basename(path))   # a relative location given as str
+                        finally:
+                            os.chdir(cwd)
+                    else:
+                        results[i] = loader(path if st["as"] == "str" else Path(path))
             except Exception as e:  # noqa: BLE001
                 results[i] = e
         return common.run_impl(steps, injected=results)
